@@ -368,6 +368,7 @@ type lockOpts struct {
 func runLockstepOpt(prefix string, pc ref.PConfig, alpha []ref.Cmd, hist []int, opts *lockOpts) *histResult {
 	res := &histResult{FailedAt: -1}
 	cfg, be := serverFor(pc)
+	defer h.GuardEnter(fmt.Sprintf("lock-step history, config %+v: [%s]", pc, histNames(alpha, hist)))()
 	var live *h.Live
 	leak, pan := h.Bubble(func() {
 		live = h.NewLive(cfg, be, pc.ImplicitTLS)
